@@ -417,6 +417,38 @@ func runC15Sub(c C15SubCase) string {
 	dist := new(big.Int).Sub(rem, half)
 	dist.Abs(dist)
 	nearTie := dist.Cmp(slack) <= 0
+	// the last second of year 9999 with a fraction that rounds up to the next
+	// second: the result would be year 10000, which is no timestamp: refused
+	if c.Year == 9999 && c.Month == 12 && c.Day == 31 && c.Hour == 23 && c.Min == 59 && c.Sec == 59 {
+		lim := new(big.Int).Sub(scale, half) // fraction >= 1 - half a nanosecond
+		if frac.Cmp(lim) < 0 || nearTie {
+			return ""
+		}
+		return drive.Guard2(func() string {
+			if c.Binary {
+				body := binTS(0, c.Unknown, 9999, 12, 31, 23, 59, 59)
+				body = refbin.VarInt(body, -nd, false, 0)
+				mag := frac.Bytes()
+				if mag[0]&0x80 != 0 {
+					mag = append([]byte{0}, mag...)
+				}
+				doc := tsBinDoc(append(body, mag...))
+				got, err := drive.Observe(ion.NewReaderBytes(doc))
+				if err == nil {
+					return fmt.Sprintf("binary 9999-12-31T23:59:59.%s rounds up into year 10000 but was read without error as %s", c.Digits, model.SeqString(got))
+				}
+				return ""
+			}
+			lit := fmt.Sprintf("9999-12-31T23:59:59.%s%s", c.Digits, map[bool]string{false: "Z", true: "-00:00"}[c.Unknown])
+			if t1, err := ion.ParseTimestamp(lit); err == nil {
+				return fmt.Sprintf("ParseTimestamp(%q) rounds up into year 10000 but returned %s without error", lit, t1.String())
+			}
+			if got, err := drive.Observe(ion.NewReaderString(lit)); err == nil {
+				return fmt.Sprintf("text %s rounds up into year 10000 but was read without error as %s", lit, model.SeqString(got))
+			}
+			return ""
+		})
+	}
 	return drive.Guard2(func() string {
 		var ts *ion.Timestamp
 		if !c.Binary {
@@ -542,8 +574,8 @@ func genC15Sub(t *rapid.T) C15SubCase {
 	}
 	c := C15SubCase{Binary: gen.Chance(t, 50), Digits: string(ds), Year: gen.Pick(t, []int{2021, 1999, 9999, 1}), Month: 12, Day: 31,
 		Hour: gen.Pick(t, []int{23, 0, 12}), Min: gen.Pick(t, []int{59, 0, 30}), Sec: gen.Pick(t, []int{59, 0, 30})}
-	if c.Year == 9999 && c.Hour == 23 && c.Min == 59 && c.Sec == 59 {
-		c.Sec = 58 // rounding up would leave the year range
+	if c.Year == 9999 && c.Hour == 23 && c.Min == 59 && c.Sec == 59 && gen.Chance(t, 50) {
+		c.Sec = 58 // otherwise: rounding up would leave the year range and must be refused
 	}
 	c.Unknown = gen.Chance(t, 35)
 	return c
@@ -620,6 +652,15 @@ func TestC15(t *testing.T) {
 	RunProp(t, pb)
 
 	ps := Prop[C15SubCase]{ID: "C15", Sub: "subnano", Gen: genC15Sub, Run: runC15Sub, Quick: 3000, Thorough: 100000}
+	Enumerate(t, ps, "carry-into-year-10000", func(yield func(C15SubCase) bool) {
+		for _, ds := range []string{"9999999999", "99999999995", "9999999996", "999999999999999", "9999999995000000001"} {
+			for m := 0; m < 4; m++ {
+				if !yield(C15SubCase{Binary: m&1 == 1, Unknown: m&2 == 2, Digits: ds, Year: 9999, Month: 12, Day: 31, Hour: 23, Min: 59, Sec: 59}) {
+					return
+				}
+			}
+		}
+	})
 	RunProp(t, ps)
 }
 
